@@ -87,6 +87,22 @@ CHECKS = {
         "Message/parameter table transcribed from PS3.7 (vk/ref/cmd.py).",
         "3/C17",
     ),
+    "C20": (
+        "exploration",
+        "enum",
+        "bounded-exhaustive enumeration of handler behaviours (yield sequences, exceptions, malformed results, sub-operation outcomes) through the real SCP implementations with a recording DIMSE provider",
+        "C-FIND / C-GET / C-MOVE: every yield sequence up to length 2 (thorough 3) over alphabets of 19 items, exceptions and handler aborts at every position, announced counts, destinations, loss of the C-MOVE sub-association, handler raising / returning None / a list; C-ECHO, C-STORE and the six DIMSE-N services: every return shape.  Oracle: Pending* (0xB001 allowed in C-FIND) then exactly one final response, every response with the request's message ID on the request's context, nothing after the final, final missing only after an abort.",
+        "DIMSE provider, C-STORE sub-operations and the C-MOVE sub-association are scripted doubles around the real service-class code.",
+        "3/C20",
+    ),
+    "C22": (
+        "exploration",
+        "enum",
+        "bounded-exhaustive enumeration of C-GET/C-MOVE handler yield sequences x sub-operation outcomes x announced counts through the real SCP loops",
+        "For announced N in {1,2,3} every yield sequence up to min(3 (thorough 4), N+2) over 12 items (valid dataset x {success, warning, failure, exception, unknown status, missing status}, None, non-dataset, final statuses) is run through the real _get_scp/_move_scp; every Pending must satisfy remaining+completed+failed+warning = N with monotone counters, the final must have completed+failed+warning <= N, list exactly the failed instances and carry Success / 0xA702 / 0xB000 as the counters dictate.",
+        "Sub-operations are scripted stubs of send_c_store.",
+        "3/C22",
+    ),
     "C26": (
         "model_checking",
         "sim",
